@@ -212,6 +212,7 @@ pub fn enumerate_seqs(ctx: &Ctx, sub: &str, k: usize, f: impl Fn(&[u8]) -> (Judg
 }
 
 pub fn run_c04(ctx: &Ctx) {
+    ctx.enable_traced_pass(4);
     ctx.set_rule("(a) proptest-generated wire trees from the RFC 8010 grammar (any group order, repeated/empty groups, every tag 0x10-0x4a with a syntactically valid body, mixed sets, multi-valued members, sets of collections, nesting to depth 6, invalid UTF-8, boundary lengths), encoded by the reference encoder, parsed by both parsers and compared with the harness's own interpretation; at up to 24 tag positions per tree a byte from {0x00,0x06-0x0f,0x4b-0xff} is substituted and must be rejected (each substitution = one evaluation). (c) boundary counts: 6 deterministic shapes (wide set, set of collections, distinct attributes, members of one collection, groups, mixed-syntax set) at n in {255,256,257,1000,1023,1024,1025,2049,4095,4096,4097,8193,16385,65535,65536,65537}, both parsers. (b) every sequence of up to k tokens over a 16-token alphabet (quick k=4, thorough k=6): reference-accepted ones must be read as interpreted, a bad tag before the end tag must be rejected. Non-trivial = tree uses a form the library's encoder never emits (non-operation first group, repeated/empty group, out-of-band/unregistered tag, mixed set, multi-valued member, set of collections, nested collection, invalid UTF-8, boundary length) or a reference-accepted token sequence; distinct by hash.");
     ctx.assume("duplicate attribute/member names, non-empty out-of-band values and memberAttrName as an attribute-level value are not asserted (RFC forbids them / unspecified)");
     let (shards, per) = ctx.tier.pick((16, 4000), (16, 80000));
@@ -448,6 +449,7 @@ fn short_messages(tier: Tier) -> Vec<Vec<u8>> {
 }
 
 pub fn run_c05(ctx: &Ctx) {
+    ctx.enable_traced_pass(4);
     ctx.set_rule("inputs: proptest-generated wire trees, model encodings, grammar-aware mutants, token sequences and raw bytes (well-formed and malformed), each under a generated delivery schedule (1-byte, uniform k, random composition; 0-2 not-ready results per boundary with immediate or deferred wake-up) - async outcome (content, payload, error kind, offending tag) must equal the blocking parser's on the whole buffer, for parse() and parse_parts(). Plus ALL 2^(n-1) chunk compositions of short messages (n<=16 quick, n<=21 thorough), each composition run with and without not-ready results. Non-trivial = >=2 chunks and >=1 not-ready result and input not rejected inside the 8-byte header; distinct by (input, schedule) hash.");
     ctx.assume("wake-ups are driven by the harness's executor (immediate and deferred), not by a real reactor");
     let (shards, per) = ctx.tier.pick((16, 3000), (16, 150000));
@@ -700,6 +702,7 @@ fn big_payload_wire(n: usize, a: u8) -> WMsg {
 }
 
 pub fn run_c06(ctx: &Ctx) {
+    ctx.enable_traced_pass(4);
     ctx.set_rule("proptest-generated well-formed wire trees with payloads (empty, 1 byte, tag-like bytes, random up to 64 KiB; MiB payloads in fixed cases) x 12 (quick) / 24 (thorough) generated read fragmentations each (1-byte, uniform, random compositions, with Interrupted / Pending results), plus all 2^(n-1) compositions of a short message: a scripted source counts the bytes handed out - exactly |header+attributes| when parse()/parse_parts() return, never a request above 65535 bytes, the rest delivered unmodified as payload / by the returned reader; result identical to the whole-buffer result. Both parsers. Each (message, schedule) is one evaluation. Non-trivial = payload non-empty and the schedule splits at least one multi-byte field; distinct by (message, schedule) hash.");
     let nsched = ctx.tier.pick(12, 24);
     let (shards, per) = ctx.tier.pick((16, 250), (16, 4000));
@@ -860,6 +863,7 @@ pub fn judge_c07_sampled(w: &WMsg, p: &Probe, max_even: usize) -> Judge {
 }
 
 pub fn run_c07(ctx: &Ctx) {
+    ctx.enable_traced_pass(4);
     ctx.set_rule("fault enumeration: for each proptest-generated well-formed message (small and general wire trees incl. collections, with-language values, boundary lengths) EVERY cut point k in [0,L) and EVERY (offset k in [0,L), kind) single fault for kinds ConnectionReset, ConnectionAborted, TimedOut, BrokenPipe, UnexpectedEof, PermissionDenied, Other, WouldBlock is injected (blocking whole/3-byte reads and async); cut => Err, fault => Err(IoError(kind)). For L>600 offsets are sampled (600 evenly + last 40). Each parse is one evaluation. Non-trivial = position strictly inside a length field, name or value; distinct by (message, position, kind).");
     ctx.assume("a persistent Interrupted fault is excluded: std::io::Read::read_exact retries it forever by contract");
     let (shards, per) = ctx.tier.pick((16, 40), (16, 900));
